@@ -105,6 +105,7 @@ def observe(args):
                     ye = e.eval()(x)
                 o['export_eq_ref'] = ye.shape == ref.shape and bool(torch.equal(ye, ref))
                 o['y0'] = [float(v) for v in ye.flatten()[:3]]
+                o['ye'] = [float(v) for v in ye.flatten()]
             except Exception as ex_:  # noqa
                 o['export_eq_ref'] = False
                 o['exc'] = 'EXC-run:%s:%s' % (type(ex_).__name__, str(ex_)[:160])
@@ -328,14 +329,15 @@ def run(ctx):
     model_ok = built
     if built:
         try:
-            defs = ''.join('Definition net_%d : net := %s.\n' % (ni, G.coq_net(d)) for ni, (d, _, _) in enumerate(nets))
+            defs = ''.join('Definition net_%d : gnet := %s.\n' % (ni, G.coq_gnet(d)) for ni, (d, _, _) in enumerate(nets))
             exprs = []
             for ni, d, st, o in flat:
                 alphas = [(b, [Fraction(v) for v in a]) for b, a in enumerate(st['alphas'])]
-                exprs.append('run_export false %s net_%d' % (coq(alphas), ni))
+                exprs.append('run_gexport %s net_%d' % (coq(alphas), ni))
             vals = ctx.coq_eval_sharded('cases', ['Plinio.Model.SuperNet'], defs, exprs, shard=120)
+            built_nets = {}
             for (ni, d, st, o), v in zip(flat, vals):
-                wins, thetas, chain, mods = v
+                wins, thetas, enet, mods = v
                 mwin = [w for _, w in wins]
                 ctx.corr += 1
                 if mwin != o['win_impl']:
@@ -345,8 +347,9 @@ def run(ctx):
                     mth = [[float(Fraction(a, b)) for a, b in t] for _, t in thetas]
                     if mth != o['theta']:
                         mism.append(('hard coefficients', ni, st, mth, o['theta']))
-                # model chain -> names
-                mchain = [('M', d['names'][c[1]]) if c[0] == 0 else ('F', c[1]) for c in chain[1]] if chain is not None else None
+                # the model's exported network (structured term: fixed layers + the winners' body expressions)
+                eterm = enet[1] if enet is not None else None
+                mchain = G.term_sequence(d, eterm) if eterm is not None else None
                 mmods = sorted(d['names'][i] for i in mods[1]) if mods is not None else None
                 ctx.corr += 1
                 if o['exc']:
@@ -359,12 +362,20 @@ def run(ctx):
                 ctx.corr += 1
                 if mmods != sorted(n for n, _ in o['tree']):
                     mism.append(('module tree', ni, st, mmods, o['tree']))
-                # the model chain evaluated with the user's own modules is `ref` (computed in the worker from the same chain)
+                # the model's exported expression evaluated with the user's own modules (residuals included) = exported(x), exactly
                 ctx.corr += 1
-                win = [max(range(len(a)), key=lambda i: (a[i], -i)) for a in st['alphas']]
-                pchain = [('M', d['names'][l[1]]) if l[0] == 'M' else ('F', l[1]) for l in expected_chain(d, win)]
-                if mchain != pchain or not o.get('export_eq_ref'):
-                    mism.append(('exported output vs model chain run on the original modules', ni, st, mchain, o.get('export_eq_ref')))
+                if eterm is not None and o.get('ye') is not None:
+                    if ni not in built_nets:
+                        built_nets[ni] = G.build(d, torch)
+                    m_, x_, _ = built_nets[ni]
+                    with torch.no_grad():
+                        ym = G.eval_term(d, m_.eval(), eterm, x_, torch)
+                    if 'BBin' in repr(eterm):
+                        ctx.dist['exported residual body evaluated from the Coq term'] += 1
+                    if [float(v) for v in ym.flatten()] != o['ye']:
+                        mism.append(('exported output vs the model\'s exported expression run on the original modules', ni, st, mchain, o.get('y0')))
+                else:
+                    mism.append(('exported output missing', ni, st, mchain, o.get('exc')))
         except RuntimeError as ex_:
             model_ok = False
             ctx.notes.append('model evaluation failed: ' + str(ex_)[-800:])
